@@ -49,7 +49,7 @@ def gen_cases(tier: str, seed: int) -> list[dict]:
             if k % 4 == 3:
                 algs.append(algs[0])          # repetition
         hist["hashes"] = algs
-        cases.append({"hist": hist, "tseed": rng.randrange(1 << 30), "exhaustive": tier == "thorough" and k % 8 == 0})
+        cases.append({"hist": hist, "tseed": rng.randrange(1 << 30), "exhaustive": tier == "thorough" and k % 40 == 0})
     return cases
 
 
